@@ -125,13 +125,14 @@ class SchedRLock:
 class FixedChooser:
     """Follow `prefix` (thread ids, one per logged decision), then never preempt."""
 
-    def __init__(self, prefix=()):
+    def __init__(self, prefix=(), strict=True):
         self.prefix = list(prefix)
+        self.strict = strict
 
     def choose(self, idx, enabled, cur):
         if idx < len(self.prefix) and self.prefix[idx] in enabled:
             return self.prefix[idx]
-        if idx < len(self.prefix):
+        if idx < len(self.prefix) and self.strict:
             raise SchedError(f"decision {idx}: thread {self.prefix[idx]} not enabled {enabled} (non-deterministic program?)")
         return cur if cur in enabled else enabled[0]
 
